@@ -160,16 +160,21 @@ def run(ctx):
             continue
         # re-execute: write again, read again, validate again
         w = by_w[c["w"]]
-        wr, _ = fl.shard_run(b, "frame-write", [w], d, "again-w", nshards=1)
-        rr, _ = fl.shard_run(b, "frame-read", [c], d, "again-r", nshards=1, extra=("--watchdog", "120s"))
-        r2 = rr[c["id"]]
-        r2["sameAsInput"] = r2["deliveredSha"] == wr[w["id"]]["inputSha"] and r2["deliveredLen"] == wr[w["id"]]["inputLen"]
-        t2 = os.path.join(d, "again.ndjson")
-        vlib.write_ndjson(t2, fl.reader_events(r2, wr[w["id"]]["inputLen"]))
-        sub = vlib.Ctx(ctx.prop, ctx.tier, ctx.seed)
-        a2, rej2 = vlib.validate_trace(sub, "Reader_Trace", t2, shards=1)
+        # (the frame of a concurrent Writer, or the run of a concurrent Reader, may depend on the schedule: several attempts)
+        for attempt in range(20 if (w["opts"].get("conc", 1) != 1 or c["cfg"]["conc"] != 1) else 2):
+            wr, _ = fl.shard_run(b, "frame-write", [w], d, "again-w", nshards=1)
+            rr, _ = fl.shard_run(b, "frame-read", [c], d, "again-r", nshards=1, extra=("--watchdog", "120s"))
+            r2 = rr[c["id"]]
+            r2["sameAsInput"] = r2["deliveredSha"] == wr[w["id"]]["inputSha"] and r2["deliveredLen"] == wr[w["id"]]["inputLen"]
+            t2 = os.path.join(d, "again.ndjson")
+            vlib.write_ndjson(t2, fl.reader_events(r2, wr[w["id"]]["inputLen"]))
+            sub = vlib.Ctx(ctx.prop, ctx.tier, ctx.seed)
+            a2, rej2 = vlib.validate_trace(sub, "Reader_Trace", t2, shards=1)
+            if rej2:
+                break
         if not rej2:
-            raise vlib.MachineryFault("reader rejection not reproducible: %s" % rj["line"][:300])
+            ctx.unreproducible("reader rejection not reproducible: %s" % rj["line"][:300])
+            continue
         slim = {k: v for k, v in r2.items() if k not in ("bytes", "delivered", "content", "log")}
         ctx.violation(key, "round trip through the Reader fails: %s" % key,
                       {"kind": "c02-read", "write_case": {k: v for k, v in w.items() if k != "save"}, "read_case": {"cfg": c["cfg"]},
@@ -247,15 +252,20 @@ def composed_sources(ctx, b, d, rnd, wcases, wrecs):
 def confirm_write(ctx, b, d, case, key):
     if any(v[0] == key for v in ctx.violations):
         return
-    recs, faults = fl.shard_run(b, "frame-write", [case], d, "again", nshards=1)
-    w = recs[case["id"]]
-    sub = vlib.Ctx(ctx.prop, ctx.tier, ctx.seed)
-    rej = fl.validate_writer_runs(sub, [w], d)
-    tp = os.path.join(d, "again-emit.ndjson")
-    vlib.write_ndjson(tp, [fl.emit_events(w, case["noflush"])])
-    acc, rej2 = vlib.validate_trace(sub, "LZ4Frame_Trace", tp, cfg="LZ4Frame_Trace_C09", shards=1)
+    # a concurrent Writer's deviation may depend on the schedule: try again several times
+    for attempt in range(20 if case["opts"].get("conc", 1) != 1 else 2):
+        recs, faults = fl.shard_run(b, "frame-write", [case], d, "again", nshards=1)
+        w = recs[case["id"]]
+        sub = vlib.Ctx(ctx.prop, ctx.tier, ctx.seed)
+        rej = fl.validate_writer_runs(sub, [w], d)
+        tp = os.path.join(d, "again-emit.ndjson")
+        vlib.write_ndjson(tp, [fl.emit_events(w, case["noflush"])])
+        acc, rej2 = vlib.validate_trace(sub, "LZ4Frame_Trace", tp, cfg="LZ4Frame_Trace_C09", shards=1)
+        if rej or rej2:
+            break
     if not rej and not rej2:
-        raise vlib.MachineryFault("rejection not reproducible for case %s" % json.dumps(case)[:300])
+        ctx.unreproducible("rejection not reproducible for case %s" % json.dumps(case)[:300])
+        return
     slim = json.loads(json.dumps(w))
     for fr in slim["frames"]:
         fr["blocks"] = fr["blocks"][:8]
